@@ -165,8 +165,9 @@ type WorldIn struct {
 	NominatedAt *int64   `json:"nominatedAt"`
 	InQueue     bool     `json:"inQueue"`
 	Buffer      int      `json:"buffer"`
-	Reupdate    bool     `json:"reupdate"`  // deliver the Node and NodeClaim events once more after mark/nominate
-	Reconcile   bool     `json:"reconcile"` // run the real nodeclaim.disruption controller before looking for candidates
+	Reupdate    bool     `json:"reupdate"`         // deliver the Node and NodeClaim events once more after mark/nominate
+	Reconcile   bool     `json:"reconcile"`        // run the real nodeclaim.disruption controller before looking for candidates
+	Fault       *RFault  `json:"rfault,omitempty"` // ... with these faults injected into that run
 	Pool        PoolIn   `json:"pool"`
 	Pods        []PodIn  `json:"pods"`
 	Pdbs        []PdbIn  `json:"pdbs"`
